@@ -125,6 +125,7 @@ func runReceive(p *Prog, version, max *int64) ([]recvPath, int) {
 }
 
 func checkC13(p *Prog, r *Report) {
+	requireRecognisedDispatch(p)
 	r.NotCov = append(r.NotCov,
 		"unknown version bytes (rejected inside the trusted library frame decoder: error => connection closed)",
 		"the compression algorithms themselves; the order of frames on a connection")
@@ -175,6 +176,8 @@ func checkC13(p *Prog, r *Report) {
 	c13Codec(p, r, cl, recv)
 	c13Names(p, r)
 	c13LookupKeys(p, r)
+	// a locally built answer gets a header of its own (flags of the request must not leak into it)
+	r.borrow("C03", "C13", func() { c03FrameWrites(p, r) })
 }
 
 func c13Gate(p *Prog, r *Report, cl *types.Named, recv *ssa.Function) {
